@@ -9,6 +9,8 @@ package main
 //        (nominally) by 1.5 T.  Answers per connection: <lower>:<upper> in microseconds, where
 //        lower = (time closedness was observed) - (time just before last seen)  [>= T must hold]
 //        upper = (last time the queue was observed open) - (time just after last seen) [< 1.5T + slack]
+//   turbotunnel sweep <T ms> expireb <n>  as expire, while six goroutines write to other clients of the same connection and
+//        fetch their queues without pause (the lock of the map is contended whenever the sweeper comes)
 //   turbotunnel sweep <T ms> mass <n>     one connection, n clients seen at once and never again (see runSweepMass)
 //   turbotunnel sweep <T ms> keep <n>     a client is seen every T/4 for 3T with one packet queued;
 //        answers ok | replaced | lost | closed
@@ -110,10 +112,32 @@ func runSweep(args []string) string {
 			time.Sleep(time.Duration(i) * T / time.Duration(n+1))
 			a := vaddr(7)
 			switch args[1] {
-			case "expire":
+			case "expire", "expireb":
 				before := time.Now()
 				ch := conn.OutgoingQueue(a)
 				after := time.Now()
+				if args[1] == "expireb" {
+					// the map is busy: other clients are written to and their queues fetched without pause by several
+					// goroutines, so that the sweeper finds the lock taken whenever it comes; it must wait for it, not
+					// give the round up
+					stop := make(chan struct{})
+					defer close(stop)
+					for w := 0; w < 6; w++ {
+						go func(w int) {
+							b := vaddr(200 + w)
+							p := []byte{0x62, byte(w)}
+							for {
+								select {
+								case <-stop:
+									return
+								default:
+								}
+								conn.WriteTo(p, b)
+								conn.OutgoingQueue(b)
+							}
+						}(w)
+					}
+				}
 				lastOpen := after
 				for {
 					now := time.Now()
